@@ -108,6 +108,18 @@ func c10stack(c *fw.Ctx, r *rand.Rand) {
 			fail("Slice=%v want %v (newest first)", sl, rev)
 			return
 		}
+		if len(ref) > 0 && len(ref)%3 == 1 {
+			// a scan abandoned half-way: the loop body panics, the caller recovers
+			fw.Panics(func() {
+				n := 0
+				s.Each(func(int) bool {
+					if n++; n > len(ref)/2 {
+						panic("scan abandoned by its loop body")
+					}
+					return true
+				})
+			})
+		}
 		var each []int
 		s.Each(func(v int) bool { each = append(each, v); return true })
 		if !equalInts(each, rev) {
@@ -207,6 +219,17 @@ func c10queue(c *fw.Ctx, r *rand.Rand) {
 		if q.Len() != len(ref) || q.IsEmpty() != (len(ref) == 0) || q.Front() != front {
 			fail("Len=%d IsEmpty=%v Front=%d, want %d elements, front %d", q.Len(), q.IsEmpty(), q.Front(), len(ref), front)
 			return
+		}
+		if len(ref) > 0 && len(ref)%3 == 1 {
+			fw.Panics(func() {
+				n := 0
+				q.Each(func(int) bool {
+					if n++; n > len(ref)/2 {
+						panic("scan abandoned by its loop body")
+					}
+					return true
+				})
+			})
 		}
 		var each []int
 		guard := 0
